@@ -446,4 +446,81 @@ theorem authentic_of_checks {H : Nat → Id} {cw : Perm → Bool} (hcw : cw 0 = 
       · exact h
 
 
+
+/-! ### stability of the acceptance predicate -/
+
+theorem idxOf_append_left {l : Log} {r : RecId} {i : Nat} (h : idxOf l r = some i) (m : Log) :
+    idxOf (l ++ m) r = some i := by
+  induction l generalizing i with
+  | nil => simp [idxOf] at h
+  | cons x xs ih =>
+    simp only [List.cons_append, idxOf] at h ⊢
+    split
+    · rename_i hx; simpa [hx] using h
+    · rename_i hx
+      simp only [hx, if_false] at h
+      cases hxs : idxOf xs r with
+      | none => simp [hxs] at h
+      | some j => simp [hxs] at h; subst h; simp [ih hxs]
+
+theorem permAt_append_left (l m : Log) (i : Nat) (a : Acc) (hi : i < l.length) :
+    permAt (l ++ m) i a = permAt l i a := by
+  simp only [permAt]
+  rw [List.take_append_of_le_length (by omega)]
+
+theorem authentic_mono {H : Nat → Id} {cw : Perm → Bool} {l : Log} {rootId : Id} {att : List Change}
+    {raw : Raw} {c : Change} (h : Authentic H cw l rootId att raw c) (more : List Change) (m : Log) :
+    Authentic H cw (l ++ m) rootId (att ++ more) raw c := by
+  obtain ⟨h1, h2, p, s, hd, hi, ha, hp, hrest⟩ := h
+  refine ⟨h1, h2, p, s, hd, hi, ha, hp, ?_⟩
+  rcases hrest with hr | ⟨hnd, hs, i, hidx, hperm, hpar⟩
+  · exact Or.inl hr
+  · right
+    refine ⟨hnd, hs, i, idxOf_append_left hidx m, ?_, ?_⟩
+    · rw [permAt_append_left l m i _ (idxOf_lt hidx)]; exact hperm
+    · rcases hpar with hroot | hpar
+      · exact Or.inl hroot
+      · right
+        intro pid hpid
+        obtain ⟨pc, hpc, hpid', hor⟩ := hpar pid hpid
+        refine ⟨pc, List.mem_append_left _ hpc, hpid', ?_⟩
+        rcases hor with hd' | ⟨j, hj, hji⟩
+        · exact Or.inl hd'
+        · exact Or.inr ⟨j, idxOf_append_left hj m, hji⟩
+
+
+/-! ### shape of the result of `addRaw` -/
+
+theorem addRaw_shape (H : Nat → Id) (cw : Perm → Bool) (keep : Bool) (l : Log) (t : TreeSt) (batch : List Raw) :
+    let r := addRaw H cw keep l t batch
+    (r.2.2 = t ∧ r.2.1 = []) ∨
+    (r.1 = .ok ∧ r.2.2.rootId = t.rootId ∧ ∃ cs, r.2.2.attached = t.attached ++ cs ∧ r.2.1 = cs.map (·.id) ∧
+      r.2.2.stored = t.stored ++ r.2.1) := by
+  simp only
+  unfold addRaw
+  split
+  · left; exact ⟨rfl, rfl⟩
+  · left; exact ⟨rfl, rfl⟩
+  · rename_i new hne hnew
+    split
+    · left; exact ⟨rfl, rfl⟩
+    · left; exact ⟨rfl, rfl⟩
+    · simp only
+      split
+      · left; exact ⟨rfl, rfl⟩
+      · have inv := addInv_treeAdd t.attached new
+        split
+        · left
+          refine ⟨?_, rfl⟩
+          simp only [rollback]
+          rw [inv.att_eq, rollback_filter _ _ inv.added_fresh]
+        · right
+          exact ⟨rfl, rfl, (treeAdd t.attached new).added, inv.att_eq, rfl, rfl⟩
+
+
+theorem unmarshalNoVerify_of_unmarshal {H : Nat → Id} {rootId : Id} {raw : Raw} {c : Change}
+    (h : unmarshal H rootId raw = .ok c) : unmarshalNoVerify rootId raw = .ok c := by
+  obtain ⟨_, p, s, hd, hc, _⟩ := unmarshal_ok h
+  simp [unmarshalNoVerify, hd, hc]
+
 end AnySync.Auth
